@@ -13,6 +13,7 @@ open CuqiVerif CuqiVerif.Proto CuqiVerif.C16
   lm M Q b x0 nuInit nu0 gradtol maxit      residual r(x) = M x + Q (x∘x) − b, J(x) = M + 2 Q diag(x)
       -> i|x|x_0;…;x_i|nu-final
   lbfgsb warnflag hasgrad                   -> success approx_grad msgcode
+  mininfo hasjac hasnit                     -> grad=some|none nit=some|none   (info entries for fields SciPy does not report)
   mincall min|max method|None hasgrad kw,…  -> method|hasjac|kw,…   (the call handed to scipy.optimize.minimize)
 -/
 
@@ -255,6 +256,19 @@ def stepMincall (args : List String) : Option String :=
     some s!"{c.method.getD "None"}|{fmtBool c.hasJac}|{if c.kwargs.isEmpty then "_" else ",".intercalate c.kwargs}"
   | _ => none
 
+/-- `mininfo <hasjac> <hasnit>` -> `grad=<some|none> nit=<some|none>`: which `info` entries are `None`
+    when SciPy's result lacks `jac` / `nit` (payloads are dummies) -/
+def stepMininfo (args : List String) : Option String :=
+  match args with
+  | [hj, hn] => do
+    let hj ← parseBool hj
+    let hn ← parseBool hn
+    let r : SciRes Nat Nat Nat := { x := 0, fn := 0, jac := if hj then some 7 else none, nit := if hn then some 3 else none,
+                                    nfev := 1, success := true, message := "" }
+    let info := (wrapMinimize r).2
+    some s!"grad={if info.grad.isSome then "some" else "none"} nit={if info.nit.isSome then "some" else "none"}"
+  | _ => none
+
 def step : List String → String
   | "cgls" :: form :: args => orBad (stepCgls form args)
   | "pcgls" :: form :: args => orBad (stepPcgls form args)
@@ -263,6 +277,7 @@ def step : List String → String
   | "lm" :: args => orBad (stepLm args)
   | "lbfgsb" :: args => orBad (stepLbfgsb args)
   | "mincall" :: args => orBad (stepMincall args)
+  | "mininfo" :: args => orBad (stepMininfo args)
   | _ => "bad-op"
 
 def main : IO Unit := runDriver step
